@@ -32,6 +32,8 @@ pub fn gen_history(rng: &mut Rng) -> (CtxSpec, Vec<String>) {
     spec.vars.push(("s".into(), s.clone()));
     spec.vars.push(("t".into(), s));
     spec.vars.push(("n".into(), Value::Int(rng.range(0, 5))));
+    // `k` is re-bound in every inner scope by the concurrency driver
+    spec.vars.push(("k".into(), Value::Int(rng.range(0, 9))));
     spec.vars.push(("m".into(), gen_value(rng, &Ty::Map(Box::new(Ty::Str), Box::new(Ty::List(Box::new(Ty::Int)))), 2)));
     spec.fns.push(("id".into(), FnSpec::Host(vec!["pos-value".into()], Body::First)));
     let span = if rng.chance(1, 10) { 49 } else { 8 };
@@ -40,6 +42,8 @@ pub fn gen_history(rng: &mut Rng) -> (CtxSpec, Vec<String>) {
         "xs + ys", "xs + [n]", "ys + xs + xs", "s + t", "s + 'x' + t", "(xs + [1]) + (xs + [2])", "xs.map(x, x + n)", "xs.filter(x, x > n)", "xs.all(x, x >= 0)", "xs.exists(x, x == n)",
         "zs[0] + xs", "zs + zs", "[xs, ys, xs + ys]", "xs.map(x, xs + [x])", "id(xs) + id(ys)", "id(s) + s", "size(xs + ys) == size(xs) + size(ys)", "xs", "ys", "s", "zs[0]", "{'k': xs}.k + xs",
         "m", "xs.map(x, s + string(x))", "xs + xs.map(x, x * 2)", "(xs + ys).filter(x, x != n) + xs", "n + 1", "xs == ys", "[s + s, s]", "xs.map(x, ys).map(l, l + [n])",
+        // a name that is a macro variable in one place and the scope's own variable in another
+        "k + 1", "[1, 2].map(k, k * 2) + [k]", "xs.map(x, x + k)", "[5].exists(k, k > 2) ? k : 0 - k", "[k, k + 1].filter(k, k > 3) + [k]", "xs.all(k, k >= 0) && k >= 0",
     ];
     // executions that end in an error, at various depths (a failed execution must leave nothing
     // behind either: the next one yields what it would yield alone)
